@@ -92,6 +92,7 @@ func (c16) Thresholds(tier string) map[string]int64 {
 		"refused":                               400,
 		"script-run-after-refused-registration": 300,
 		"re-registrations-with-closures-of-one-literal": 500,
+		"converted-registrations-in-mid-run":            500,
 		"must-refuse-checked":                           400,
 		"non-function-values-refused":                   400,
 		"script-side-calls":                             8000,
@@ -571,7 +572,7 @@ func (p c16) reRegistration(c *core.Ctx) {
 	a, b := float64(r.Range(1, 50)), float64(r.Range(51, 99))
 	var called []string
 	cmd := func(tag string) func(string) { return c16Tagger(&called, tag) }
-	script := "title: Start\n---\ncoins {g()}\n<<act x>>\nafter\n===\n"
+	script := "title: Start\n---\ncoins {g()}\n<<act x>>\nafter\ncoins {g()} {h()}\n<<act y>>\n<<react z>>\nend\n===\n"
 	rr, err, pan := mon.Create(nil, "", []string{script})
 	if err != nil || pan != "" {
 		c.Inconclusive("re-registration script failed to load")
@@ -597,6 +598,29 @@ func (p c16) reRegistration(c *core.Ctx) {
 		return
 	}
 	c.Feature("re-registrations-with-closures-of-one-literal")
+	// the dialogue is under way: the host replaces both and registers two new names; what runs from now on
+	// is what is registered by then
+	d, e := float64(r.Range(100, 150)), float64(r.Range(151, 199))
+	for _, reg := range []func() error{
+		func() error { return rr.DR.ConvertAndAddFunction("g", coins(d)) },
+		func() error { return rr.DR.ConvertAndAddFunction("h", coins(e)) },
+		func() error { return rr.DR.ConvertAndAddCommand("act", cmd("third")) },
+		func() error { return rr.DR.ConvertAndAddCommand("react", cmd("new")) },
+	} {
+		if err := reg(); err != nil {
+			c.Violate("registering func() float64 / func(string) in mid-run failed: "+err.Error(), nil)
+			return
+		}
+	}
+	o3 := rr.Next(0)
+	o4 := rr.Next(0)
+	want = fmt.Sprintf("coins %v %v", d, e)
+	if o3.Kind != mon.KLine || o3.Text != want || o4.Kind != mon.KLine || o4.Text != "end" || strings.Join(called, ",") != "second,third,new" {
+		c.Violate("functions and commands registered (or replaced) through the converting calls while the dialogue is under way are not what later statements run", map[string]any{
+			"readers": []string{script}, "g_returns_now": d, "h_returns": e, "line_shown": o3.String(), "then": o4.String(), "command_handlers_invoked": called, "expected_handlers": "second,third,new"})
+		return
+	}
+	c.Feature("converted-registrations-in-mid-run")
 }
 
 func (p c16) Run(c *core.Ctx) {
